@@ -9,6 +9,7 @@ from common import show_list
 LEVEL = "proof"
 LEAN_PROPS = ["FastTicc.Props.C04", "FastTicc.Props.C10", "FastTicc.Props.C01", "FastTicc.Props.C11", "FastTicc.Props.C04b", "FastTicc.Props.FrontEnd"]
 LEAN_HELPERS = ["FastTicc.Proofs.Stack"]
+LEAN_TRANSLATED = {"FastTicc.Props.TrPad": ["pad_missing_labels"], "FastTicc.Props.TrSplit": ["split_joint_labels"]}
 RULE = ("(a) padding/splitting helpers: every W in [1,12] x label lengths 0..60 (exhaustive) and random joint splits; "
         "(b) complete runs of both front ends on random small data: N in [1,3], W in [1,7] odd and even, K in [2,4], "
         "1..6 series of unequal length from W upward; non-trivial = W>=2 (a margin exists) and, for joint runs, "
@@ -63,7 +64,7 @@ def run(ctx):
         cfgs = [c for c in ctx.corpus if "pad" not in c] + [tu.gen_config(ctx.rng) for _ in range(n)]
 
     # ---------------- helpers, exhaustive over W x length
-    lines, expect = [], []
+    lines, expect, gen_cases = [], [], []
     for (W, L) in pads:
         labels = [ctx.rng.randint(0, 3) for _ in range(L)]
         got = dp.pad_missing_labels(list(labels), W)
@@ -74,10 +75,13 @@ def run(ctx):
             ctx.violation("impl-violation", "pad_missing_labels: wrong margin", {"pad": [W, L]}, {"site": "pad"})
         lines.append(f"pad {W} {show_list(labels)}")
         expect.append((W, L, show_list(got)))
+        gen_cases.append((f"{show_list(labels)} {W}", "ok " + show_list(got), {"pad": [W, L]}))
         ctx.case(("pad", W, L), nontrivial=W >= 2 and L >= 1)
     for (W, L, want), out in zip(expect, ctx.driver.run(lines)):
         if out != want:
             ctx.violation("correspondence-break", "padMissing vs pad_missing_labels", {"pad": [W, L], "model": out, "impl": want})
+    # the function TRANSLATED from the source (Generated/Kernels.lean) on the same inputs
+    ctx.gen_compare("pad_missing_labels", gen_cases)
     ctx.count("pad_cases", len(pads))
     if pads and ctx.replay is None:
         ctx.exhaustive = False   # helper domain enumerated completely; complete runs are sampled
